@@ -187,3 +187,26 @@ def dataset_names(t):
         if n[0] == "ds" and n[1] not in out:
             out.append(n[1])
     return out
+
+
+def structural_subterms(t):
+    """Sub-terms whose value is needed to choose a branch (dispatches, bind sources, case
+    dispatches and conditions, Map iterables), anywhere in the term."""
+    out = []
+    for n in walk(t):
+        k = n[0]
+        if k in ("switch", "overloaded"):
+            if not (isinstance(n[1], tuple) and n[1][0] == "optkey"):
+                out.append(n[1])
+        elif k == "bind":
+            out.append(n[1])
+        elif k == "case":
+            out.append(n[1])
+            out.extend(c for c, _ in n[2])
+        elif k in ("map", "mapvalues"):
+            out.extend(x for _, x in n[2])
+        elif k == "ds":
+            d = dsprops(n)["dispatch"]
+            if d is not None and d[0] != "optkey":
+                out.append(d)
+    return out
